@@ -32,6 +32,7 @@ def run_property(prop, tier, seed, root=None, overlay=None, only=None, quiet=Fal
     prog = model.Program(root=root, overlay=overlay)
     mod = importlib.import_module("pmcsa.rules_%s" % prop)
     chk = report.Check(prop, prog, tier=tier, seed=seed)
+    prog.__dict__.setdefault("_include_stack", []).append(mod.__name__)  # (for report.include_rules: no mutual includes)
     chk.only = only
     partial = None
     try:
